@@ -64,8 +64,16 @@ def cb(v):
     return _t("cb", v)
 
 
+def cb_none(v):
+    return None
+
+
 def e1(v):
     return None
+
+
+def step_g(x, p):
+    return _t("g", x, p)
 
 
 def abstract_body():
